@@ -116,7 +116,9 @@ Members == <<"0.5, 1.5, 2.5, 3.5, 4.5, 5.5, 6.5, 7.5, 8.5, 9.5",
              "100, 20, 3, 44, 5, 61, 7, 8, 9, 10, 11, 12, 13",
              "\"k9\", \"k1\", \"k5\", \"k3\", \"k7\", \"k2\", \"k8\", \"k4\", \"k6\", \"k0\"",
              "byte(3), byte(1), byte(2), 1, 2, 3, 1.0, 2.0",
-             "-0.5, 0.5, -1, 1, 0, -2.5, 2.5, 0.0">>
+             "-0.5, 0.5, -1, 1, 0, -2.5, 2.5, 0.0",
+             \* values that no order relation places: not-a-number (twice: it is not equal to itself) and the infinities
+             "0.125, 6, 0.0 / 0, 2.5, 0.0 / 0, 1.0 / 0, -1.0 / 0, 3">>
 OrderViews(m) == <<
    Cat(<<"s := {", m, "}", NL, "print(s)", NL, "s">>),
    Cat(<<"s := {", m, "}", NL, "print(list(s), string(s))", NL, "list(s)">>),
@@ -145,6 +147,11 @@ Order(u) == UNION {{OrderViews(Members[k])[j] : j \in 1..7} : k \in 1..Len(Membe
 \* the same NAME used for different things in different scopes: named functions (nested, siblings, three levels),
 \* parameters, locals, a function named like a variable elsewhere - whatever links code to names must keep them apart
 Names(u) == {
+   \* names that the implementation uses for its own objects: the main code is called "__main__", codes have ids like
+   \* "__main__.0", functions ids like "1"
+   Cat(<<"func __main__(n) {", NL, "if n == 0 {", NL, "return 0", NL, "}", NL, "return __main__(n - 1) + 1", NL, "}", NL, "print(__main__(3))", NL, "__main__(2)">>),
+   Cat(<<"func outer() {", NL, "func __main__() {", NL, "return 5", NL, "}", NL, "return __main__() + 1", NL, "}", NL, "print(outer())", NL, "outer()">>),
+   Cat(<<"__main__ := 3", NL, "func f(__main__) {", NL, "return __main__ * 2", NL, "}", NL, "print(f(4), __main__)", NL, "f(__main__)">>),
    Cat(<<"func helper() {", NL, "return 1", NL, "}", NL, "func outer() {", NL, "func helper() {", NL, "return 10", NL, "}", NL,
          "return helper() + 1", NL, "}", NL, "print(helper(), outer())", NL, "[helper(), outer()]">>),
    Cat(<<"func a() {", NL, "func step() {", NL, "return 1", NL, "}", NL, "return step()", NL, "}", NL,
